@@ -191,11 +191,11 @@ def generate(repo):
         for cm in re.finditer(r"\bconst\s+(\w+)\s*:\s*i32\s*=\s*([^;]+);", body):
             v = eval_score(cm.group(2), consts)
             if v is None:
-                missing.append(("C10_SCORE_" + cm.group(1), ADDR, "unsupported expression"))
+                missing.append(("C10_ERROR_SCORE_ARMS", ADDR, "unsupported score expression: " + cm.group(1)))
             else:
                 consts[cm.group(1)] = v
     else:
-        missing.append(("C10_SCORES", ADDR, "mod scores not found"))
+        missing.append(("C10_ERROR_SCORE_ARMS", ADDR, "mod scores not found"))
     # error_score arms
     arms = []
     m = re.search(r"\bfn\s+error_score\s*\([^)]*\)\s*->\s*i32\s*\{", aclean)
